@@ -385,9 +385,13 @@ def run(ctx):
         if lang == "go":
             r = gres[cid]
             if r.get("glue_err"):
-                if r["glue_err"].startswith("glue: cannot decode") and "cannot unmarshal number -" in r["glue_err"] and "of type uint" in r["glue_err"]:
-                    # the input format turned `int & >= 0` into an unsigned type: a negative argument cannot be written
-                    cnt["argument_not_expressible_in_this_api:negative-into-unsigned"] += 1
+                if r["glue_err"].startswith("glue: cannot decode"):
+                    # The generated parameter type cannot carry this argument value: the (option, value) pair is not expressible
+                    # in this unit's API - skipped and counted, never a verdict and never the end of the run. The usual case: the
+                    # input format turned `int & >= 0` into an unsigned type (uint64, or a NAMED type over it such as Port) and
+                    # the argument is negative.
+                    neg = "cannot unmarshal number -" in r["glue_err"]
+                    cnt["argument_not_expressible_in_this_api:%s" % ("negative-into-unsigned" if neg else "not-decodable-into-the-parameter-type")] += 1
                     continue
                 harness_errs["go: " + r["glue_err"][:100]] += 1
                 continue
